@@ -27,6 +27,8 @@ var c02Defects = []string{
 	"presign-dup-expires-first", "presign-dup-arg-first", "query-dup-arg-first",
 	// the secret the request is signed with was valid until the account's secret was changed a moment ago
 	"rotated-secret", "presign-rotated-secret",
+	// the signature of a data chunk is removed (empty value) and the chunk's data altered
+	"chunk-sig-emptied",
 }
 
 type c02Prog struct {
@@ -78,7 +80,7 @@ func c02DefectApplies(d string, r routes.Route, mode string, hasBody bool) bool 
 	switch d {
 	case "payload-altered":
 		return hasBody && (mode == s3c.ModeSigned)
-	case "chunk-data-altered", "chunk-sig-altered":
+	case "chunk-data-altered", "chunk-sig-altered", "chunk-sig-emptied":
 		return r.Streams && (mode == s3c.ModeChunked || mode == s3c.ModeChunkedTrailer)
 	case "trailer-altered":
 		return r.Streams && mode == s3c.ModeChunkedTrailer
@@ -101,7 +103,7 @@ func (c02) Gen(seed uint64, run int, tier string) *core.Case {
 	switch d {
 	case "payload-altered", "payload-hash-wrong":
 		p.Mode = s3c.ModeSigned
-	case "chunk-data-altered", "chunk-sig-altered":
+	case "chunk-data-altered", "chunk-sig-altered", "chunk-sig-emptied":
 		p.Mode = []string{s3c.ModeChunked, s3c.ModeChunkedTrailer}[r.IntN(2)]
 	case "trailer-altered":
 		p.Mode = s3c.ModeChunkedTrailer
@@ -211,9 +213,13 @@ func c02Apply(e *env.Env, fx *routes.Fixture, rt *routes.Route, p *c02Prog) (sg 
 			return nil, nil, false
 		}
 		ns := adm.Secret + "-rotated"
-		root := e.Root()
-		root.GW = g
-		if u := root.Do(s3c.AdminUpdateUser(adm.Access, &ns, nil, nil)); !u.Resp.OK() {
+		// the account (role admin) rotates its own secret: no request of any other access key comes between
+		// its last verified request and the one signed with the old secret
+		ur := s3c.AdminUpdateUser(adm.Access, &ns, nil, nil)
+		if rq.Mode != s3c.ModePresign {
+			ur.Mode = s3c.ModeSigned
+		}
+		if u := warm.Do(ur); !u.Resp.OK() {
 			return nil, nil, false
 		}
 		rq.Access, rq.Secret = adm.Access, adm.Secret
@@ -330,6 +336,23 @@ func c02Apply(e *env.Env, fx *routes.Fixture, rt *routes.Route, p *c02Prog) (sg 
 		b := []byte(sg.Target)
 		b[i+len("X-Amz-Signature=")+3] = flipHex(b[i+len("X-Amz-Signature=")+3])
 		sg.Target = string(b)
+	case "chunk-sig-emptied":
+		var sig, data *s3c.Mark
+		for i := range sg.Marks {
+			m := &sg.Marks[i]
+			if sig == nil && m.Kind == "chunk-sig" && m.Len > 2 {
+				sig = m
+			} else if sig != nil && data == nil && m.Kind == "data" && m.Off > sig.Off && m.Len > 2 {
+				data = m
+			}
+		}
+		if sig == nil || data == nil {
+			return nil, nil, false
+		}
+		nb := append([]byte{}, sg.Body[:sig.Off]...)
+		nb = append(nb, sg.Body[sig.Off+sig.Len:]...)
+		nb[data.Off-sig.Len+data.Len/2] ^= 0x01
+		sg.Body = nb
 	case "chunk-data-altered", "chunk-sig-altered", "trailer-altered":
 		kind := map[string]string{"chunk-data-altered": "data", "chunk-sig-altered": "chunk-sig", "trailer-altered": "trailer-value"}[p.Defect]
 		done := false
@@ -472,7 +495,7 @@ func c02DefectClass(d string) string {
 		"presign-wrong-secret", "presign-sig-digit", "presign-param-altered", "presign-expires-altered", "scope-date", "scope-service", "scope-terminator",
 		"presign-dup-arg-first", "query-dup-arg-first", "rotated-secret", "presign-rotated-secret":
 		return "signature-not-verified"
-	case "chunk-data-altered", "chunk-sig-altered", "trailer-altered", "payload-hash-wrong":
+	case "chunk-data-altered", "chunk-sig-altered", "trailer-altered", "payload-hash-wrong", "chunk-sig-emptied":
 		return "payload-integrity:" + d
 	}
 	return d
